@@ -70,15 +70,52 @@ fn main() {
                 }
                 i += 1;
             }
-            if tier == Tier::Thorough {
-                // larger systems and deeper PDR runs
+            // a replay runs under the budgets of the tier that produced the file
+            if let Some(path) = &replay {
+                if let Ok(text) = std::fs::read_to_string(path) {
+                    if let Ok(v) = serde_json::from_str::<serde_json::Value>(&text) {
+                        let t = v["tier"].as_str().or(v["scenario"]["tier"].as_str()).unwrap_or("quick");
+                        if t == "thorough" {
+                            tier = Tier::Thorough;
+                        }
+                    }
+                }
+            }
+            if tier == Tier::Thorough && !matches!(prop.id(), "C03" | "C04") {
+                // a wider margin between the livelock sentinel and the longest legitimate run, for
+                // the many more seeds of this tier. C03 and C04 do not judge termination (a run cut
+                // off by the budget is only counted there), so they keep the smaller budget.
                 transport::EVENT_BUDGET.store(6_000_000, std::sync::atomic::Ordering::Relaxed);
+            }
+            if let Some(b) = std::env::var("PATSIM_EVENT_BUDGET").ok().and_then(|s| s.parse::<u64>().ok()) {
+                transport::EVENT_BUDGET.store(b, std::sync::atomic::Ordering::Relaxed);
             }
             let code = match replay {
                 Some(path) => runner::replay_file(prop.as_ref(), &path, &out),
                 None => runner::check(prop.as_ref(), tier, &out),
             };
             std::process::exit(code);
+        }
+        "shipped-sim-costs" => {
+            // wall-clock of one init + 3 steps of patronus' interpreter per shipped design (tooling:
+            // used to choose the size bound of the C07 corpus; not part of any check)
+            use patronus::sim::{InitKind, Interpreter, Simulator};
+            for (name, text, _) in props::mc_common::shipped_corpus(400_000, 10, false).iter() {
+                if std::env::var("PATSIM_SKIP").map(|k| name.contains(&k)).unwrap_or(false) {
+                    continue;
+                }
+                let t0 = std::time::Instant::now();
+                let mut ctx = patronus::expr::Context::default();
+                if let Some(psys) = patronus::btor2::parse_str(&mut ctx, text, Some("x")) {
+                    let mut sim = Interpreter::new(&ctx, &psys);
+                    sim.init(InitKind::Zero);
+                    for _ in 0..3 {
+                        sim.step();
+                    }
+                }
+                out.say(&format!("{} ms {} bytes {}", t0.elapsed().as_millis(), text.len(), name));
+            }
+            std::process::exit(0);
         }
         "shipped-costs" => {
             for (name, _, sys) in props::mc_common::shipped_corpus(400_000, 6, true).iter() {
